@@ -142,9 +142,10 @@ structure NL (z : Z) (r : Token × Z) : Prop where
   adv : AdvNL z r.2
   pos : r.1.pos = z.position
   ty : r.1.ty ≠ .newline
+  stop : r.1.stop = r.2.position
 
 theorem mkTok_nl {z e : Z} (ty : TokType) (v : Bytes) (he : AdvNL z e) (hty : ty ≠ .newline) :
-    NL z (mkTok ty v z e) := ⟨he, rfl, hty⟩
+    NL z (mkTok ty v z e) := ⟨he, rfl, hty, rfl⟩
 
 theorem scanDate_nl (z : Z) : NL z (scanDate z) :=
   mkTok_nl _ _ (advWhile_nl _ (by decide) z) (by decide)
@@ -274,7 +275,8 @@ inductive Step (z : Z) (r : Token × Z) : Prop
       (hafter : z.after = sp ++ pre ++ r.2.after)
       (hbefore : r.2.before = pre.reverse ++ sp.reverse ++ z.before)
       (hline : r.2.line = z.line) (hty : r.1.ty ≠ .newline)
-      (hpl : r.1.pos.line = z.line) (hpo : r.1.pos.off = z.before.length + sp.length) : Step z r
+      (hpl : r.1.pos.line = z.line) (hpo : r.1.pos.off = z.before.length + sp.length)
+      (hstop : r.1.stop = r.2.position) : Step z r
   | newline (sp cr : Bytes) (hsp : ∀ c ∈ sp, isBlank c = true) (hcr : cr = [] ∨ cr = [0x0D])
       (hafter : z.after = sp ++ cr ++ LF :: r.2.after)
       (hbefore : r.2.before = LF :: cr.reverse ++ sp.reverse ++ z.before)
@@ -286,18 +288,18 @@ inductive Step (z : Z) (r : Token × Z) : Prop
 theorem Step.of_nl {z : Z} {r : Token × Z} (h : NL z r) : Step z r := by
   obtain ⟨pre, h1, h2, h3, h4⟩ := h.adv
   exact Step.tok [] pre (by simp) h3 (by simpa using h1) (by simpa using h2) h4 h.ty
-    (by rw [h.pos]; rfl) (by rw [h.pos]; simp [Z.position])
+    (by rw [h.pos]; rfl) (by rw [h.pos]; simp [Z.position]) h.stop
 
 /-- prefix blanks skipped before the step proper -/
 theorem Step.skip {z0 z : Z} {r : Token × Z} (sp : Bytes) (hsp : ∀ c ∈ sp, isBlank c = true)
     (ha : z0.after = sp ++ z.after) (hb : z.before = sp.reverse ++ z0.before) (hl : z.line = z0.line)
     (h : Step z r) (hz : ∀ c t, z.after = c :: t → isBlank c ≠ true) : Step z0 r := by
   cases h with
-  | tok sp' pre hsp' hpre hafter hbefore hline hty hpl hpo =>
+  | tok sp' pre hsp' hpre hafter hbefore hline hty hpl hpo hstop =>
     -- behind `skipSpaces` no further blanks are skipped
     cases sp' with
     | nil =>
-      refine Step.tok sp pre hsp hpre ?_ ?_ (by rw [hline, hl]) hty (by rw [hpl, hl]) ?_
+      refine Step.tok sp pre hsp hpre ?_ ?_ (by rw [hline, hl]) hty (by rw [hpl, hl]) ?_ hstop
       · rw [ha, hafter]; simp
       · rw [hbefore, hb]; simp
       · rw [hpo, hb]; simp; omega
@@ -344,39 +346,56 @@ theorem step_ite {c : Prop} [Decidable c] {z : Z} {a b : Token × Z}
 theorem Step.congr {z z' : Z} {r : Token × Z} (ha : z'.after = z.after) (hb : z'.before = z.before)
     (hl : z'.line = z.line) (h : Step z r) : Step z' r := by
   cases h with
-  | tok sp pre hsp hpre hafter hbefore hline hty hpl hpo =>
+  | tok sp pre hsp hpre hafter hbefore hline hty hpl hpo hstop =>
     exact Step.tok sp pre hsp hpre (by rw [ha]; exact hafter) (by rw [hb]; exact hbefore)
-      (by rw [hl]; exact hline) hty (by rw [hl]; exact hpl) (by rw [hb]; exact hpo)
+      (by rw [hl]; exact hline) hty (by rw [hl]; exact hpl) (by rw [hb]; exact hpo) hstop
   | newline sp cr hsp hcr hafter hbefore hline hcol hstart hty hpl hpo hstop =>
     exact Step.newline sp cr hsp hcr (by rw [ha]; exact hafter) (by rw [hb]; exact hbefore)
       (by rw [hl]; exact hline) hcol hstart hty (by rw [hl]; exact hpl) (by rw [hb]; exact hpo) hstop
 
-theorem scanInLineAt_step (C : Classes) (z : Z) : Step z (scanInLineAt C z) := by
-  unfold scanInLineAt
+theorem nl_ite {c : Prop} [Decidable c] {z : Z} {a b : Token × Z}
+    (ha : c → NL z a) (hb : ¬c → NL z b) : NL z (if c then a else b) := by
   split
-  · exact Step.of_nl (mkTok_nl _ _ (AdvNL.refl z) (by decide))
-  · rename_i ch t hz
-    simp only []
-    refine step_ite (fun h => ?_) fun c1 => ?_
-    · exact scanNewline_step (by rw [hz]; exact h)
-    have hc : ch ≠ LF := atEol_ne_lf (by simpa using c1)
-    have hp : peek z ≠ LF := by simpa [peek, hz] using hc
-    refine step_ite (fun _ => Step.of_nl (scanComment_nl hp)) fun _ => ?_
-    refine step_ite (fun _ => step_ite (fun _ => Step.of_nl (punct_nl _ _ hp (by decide))) fun _ =>
-      Step.of_nl (scanCode_nl hp)) fun _ => ?_
-    refine step_ite (fun _ => Step.of_nl (punct_nl _ _ hp (by decide))) fun _ => ?_
-    refine step_ite (fun _ => Step.of_nl (punct_nl _ _ hp (by decide))) fun _ => ?_
-    refine step_ite (fun _ => Step.of_nl (punct_nl _ _ hp (by decide))) fun _ => ?_
-    refine step_ite (fun _ => Step.of_nl (punct_nl _ _ hp (by decide))) fun _ => ?_
-    refine step_ite (fun _ => Step.of_nl (scanAt_nl hp)) fun _ => ?_
-    refine step_ite (fun _ => Step.of_nl (scanEquals_nl hp)) fun _ => ?_
-    refine step_ite (fun _ => Step.of_nl (scanStatus_nl hp)) fun _ => ?_
-    refine step_ite (fun _ => Step.of_nl (scanCurrencySymbol_nl hz hc)) fun _ => ?_
-    refine step_ite (fun _ => Step.of_nl (scanQuotedCommodity_nl hp)) fun _ => ?_
-    refine step_ite (fun _ => step_ite (fun _ => Step.of_nl (scanSign_nl hp)) fun _ => Step.of_nl (scanText_nl z)) fun _ => ?_
-    refine step_ite (fun _ => step_ite (fun _ => Step.of_nl (scanDate_nl z)) fun _ => Step.of_nl (scanNumber_nl z)) fun _ => ?_
-    refine step_ite (fun _ => step_ite (fun _ => Step.of_nl (scanAccount_nl z)) fun _ => Step.of_nl (scanCommodityOrText_nl C z)) fun _ => ?_
-    exact Step.of_nl (scanText_nl z)
+  · exact ha ‹_›
+  · exact hb ‹_›
+
+/-- where the lexer does not stand at a line end (and input is left), `scanInLineAt` returns a
+    token that starts right there, stays on the line and is not a Newline token -/
+theorem scanInLineAt_nl (C : Classes) {z : Z} {ch : UInt8} {t : Bytes} (hz : z.after = ch :: t)
+    (c1 : ¬ atEol (ch :: t) = true) : NL z (scanInLineAt C z) := by
+  unfold scanInLineAt
+  simp only [hz]
+  rw [if_neg c1]
+  have hc : ch ≠ LF := atEol_ne_lf (by simpa using c1)
+  have hp : peek z ≠ LF := by simpa [peek, hz] using hc
+  refine nl_ite (fun _ => scanComment_nl hp) fun _ => ?_
+  refine nl_ite (fun _ => nl_ite (fun _ => punct_nl _ _ hp (by decide)) fun _ => scanCode_nl hp) fun _ => ?_
+  refine nl_ite (fun _ => punct_nl _ _ hp (by decide)) fun _ => ?_
+  refine nl_ite (fun _ => punct_nl _ _ hp (by decide)) fun _ => ?_
+  refine nl_ite (fun _ => punct_nl _ _ hp (by decide)) fun _ => ?_
+  refine nl_ite (fun _ => punct_nl _ _ hp (by decide)) fun _ => ?_
+  refine nl_ite (fun _ => scanAt_nl hp) fun _ => ?_
+  refine nl_ite (fun _ => scanEquals_nl hp) fun _ => ?_
+  refine nl_ite (fun _ => scanStatus_nl hp) fun _ => ?_
+  refine nl_ite (fun _ => scanCurrencySymbol_nl hz hc) fun _ => ?_
+  refine nl_ite (fun _ => scanQuotedCommodity_nl hp) fun _ => ?_
+  refine nl_ite (fun _ => nl_ite (fun _ => scanSign_nl hp) fun _ => scanText_nl z) fun _ => ?_
+  refine nl_ite (fun _ => nl_ite (fun _ => scanDate_nl z) fun _ => scanNumber_nl z) fun _ => ?_
+  refine nl_ite (fun _ => nl_ite (fun _ => scanAccount_nl z) fun _ => scanCommodityOrText_nl C z) fun _ => ?_
+  exact scanText_nl z
+
+theorem scanInLineAt_step (C : Classes) (z : Z) : Step z (scanInLineAt C z) := by
+  cases hz : z.after with
+  | nil =>
+    unfold scanInLineAt
+    rw [hz]
+    exact Step.of_nl (mkTok_nl _ _ (AdvNL.refl z) (by decide))
+  | cons ch t =>
+    by_cases c1 : atEol (ch :: t) = true
+    · unfold scanInLineAt
+      simp only [hz, c1, if_true]
+      exact scanNewline_step (by rw [hz]; exact c1)
+    · exact Step.of_nl (scanInLineAt_nl C hz c1)
 
 theorem scanInLine_step (C : Classes) (z0 : Z) : Step z0 (scanInLine C z0) := by
   unfold scanInLine
@@ -410,4 +429,12 @@ theorem next_step (C : Classes) (z : Z) : Step z (next C z) := by
   · exact Step.of_nl (mkTok_nl _ _ (AdvNL.refl z) (by decide))
   · exact step_ite (fun _ => scanLineStart_step C z) fun _ => scanInLine_step C z
 
+end HL.Lex
+
+namespace HL.Lex
+/-- a token ends where the lexer stands afterwards (line, column and offset) -/
+theorem next_stop (C : Classes) (z : Z) : (next C z).1.stop = (next C z).2.position := by
+  cases next_step C z with
+  | tok sp pre hsp hpre hafter hbefore hline hty hpl hpo hstop => exact hstop
+  | newline sp cr hsp hcr hafter hbefore hline hcol hstart hty hpl hpo hstop => exact hstop
 end HL.Lex
